@@ -86,6 +86,15 @@ def workload(tier, seed, scale=1.0):
         ty = rnd.choice(UTYPES)
         kind = rnd.choice('UI')
         cmds.append(cmd_pw('C12', ty, -b if (kind == 'I' and rnd.random() < 0.5) else b, e, kind, cell=('structured', len(ds), e, ty, kind)))
+    # special-value bases (primitive-type and word boundaries, repeated digits) with small exponents, both signs
+    from ..core import special_values
+    for b in special_values()[::(2 if quick else 1)]:
+        for e in (2, 3, 5):
+            if scale < 1.0 and rnd.random() > scale:
+                continue
+            ty = rnd.choice(UTYPES)
+            cmds.append(cmd_pw('C12', ty, b, e, 'U', cell=('pool', min(ndig(b), 6), e, ty, 'U')))
+            cmds.append(cmd_pw('C12', ty, -b, e, 'I', cell=('pool', min(ndig(b), 6), e, ty, 'I')))
     # BigUint exponents
     for e in [0, 1, 2, 3, 10, 64, 65, 300, M64, 1 << 64, (1 << 64) + 1, (1 << 128) - 1, 1 << 128, (1 << 128) + 1, (1 << 200) + 1, 1 << 200]:
         for b in (0, 1, -1):
